@@ -1,13 +1,16 @@
-import JSight.ExampleText
+import JSight.ExampleTextR
 import Driver.Common
 namespace DExText
 open Drv
 /-! `extext <hex>` → `EX <hex>`: the example bytes the text-level model (`Loader.exampleText`: schema scanner model,
 loader model, example builder on the node table) returns for the schema text; `ERR code pos` of the scanner / loader,
-`EMPTY`, or `UNSUPPORTED` (a rule, type shortcut or key shortcut: outside the text-level fragment). -/
+`EMPTY`, or `UNSUPPORTED` (a type shortcut, a key shortcut, or a container carrying `or` / `allOf`: outside the
+text-level fragment). Since the fourth wave the builder is `Loader.exampleTextR` (`JSight/ExampleTextR.lean`): the rules
+`example.go` does not consult no longer make it answer UNSUPPORTED; it extends `Loader.exampleText`
+(`Loader.exampleTextR_extends`). -/
 
 def handle (hx : String) : String :=
-  match Loader.exampleText (unhex hx) with
+  match Loader.exampleTextR (unhex hx) with
   | .ok out => "EX " ++ hexOf out
   | .error e => e
 
